@@ -50,8 +50,11 @@ def mdPad (msg : Bytes) (block lenLen : Nat) (lenBytes : Bytes) : Bytes :=
   let z := (block - (l + lenLen) % block) % block
   msg ++ [0x80] ++ List.replicate z 0 ++ lenBytes
 
-def chunks (n : Nat) (bs : Bytes) : List Bytes :=
-  (List.range (bs.length / n)).map fun i => (bs.drop (i * n)).take n
+/-- the complete `n`-byte chunks of `bs`, in order (`cnt` = how many are left to take) -/
+def chunksN (n : Nat) : Nat → Bytes → List Bytes
+  | 0, _ => []
+  | cnt + 1, bs => bs.take n :: chunksN n cnt (bs.drop n)
+def chunks (n : Nat) (bs : Bytes) : List Bytes := chunksN n (bs.length / n) bs
 
 def md5Block (st : UInt32 × UInt32 × UInt32 × UInt32) (blk : Bytes) : UInt32 × UInt32 × UInt32 × UInt32 := Id.run do
   let m := (wordsLE blk).toArray
